@@ -10,7 +10,9 @@ import itertools
 from ..core import Family, Result, viol, HarnessError
 from ..fixtures import TableGrader
 
-from mitxgraders import SingleListGrader, StringGrader
+from ..refs import c07_ref
+
+from mitxgraders import SingleListGrader, StringGrader, NumericalGrader, FormulaGrader
 from mitxgraders.exceptions import MissingInput, ConfigError
 
 PROPERTY = 'C07'
@@ -79,6 +81,10 @@ def expected_pool(maxlen):
 
 
 FLAGSETS = list(itertools.product((False, True), repeat=4))     # ordered, partial_credit, length_error, missing_error
+# docs/grading_lists/single_list_grader.md: "Ordered is False by default", "By default, length_error is set to False",
+# missing_error: "the grader returns an error if a student's response has an empty entry ... you need to disable this
+# behavior", "The default is a comma", partial_credit "is True by default"
+DOCUMENTED_DEFAULTS = {'ordered': False, 'partial_credit': True, 'length_error': False, 'missing_error': True, 'delimiter': ','}
 
 
 def render(sub, delim):
@@ -118,16 +124,23 @@ def call(g, expect, s):
 class Flat(Family):
     timeout = 30.0
 
-    def __init__(self, name, delim, form, answer_credit, tiers=('quick', 'thorough')):
+    def __init__(self, name, delim, form, answer_credit, tiers=('quick', 'thorough'), minimal=False, maxsub=None):
         self.name = name
         self.delim = delim
         self.form = form           # 'list' | 'string' | 'infer'
         self.c = answer_credit
         self.tiers = tiers
+        self.minimal = minimal     # True: options whose value is the documented default are NOT passed to the grader
+        self.maxsub = maxsub       # (quick, thorough) override of the submission length bound
         self.rule = ('expected lists (all ordered selections of 1..3 [quick 2] of a,b,c + lists with item alternatives and item '
                      'partial credit) x every submission of 1..5 [quick 4] symbols over {a,b,c,z,blank} x 16 flag sets; delimiter %r, '
                      'answers given as %s, answer credit %r with message; oracle = closed-form formula with brute-force matching'
                      % (delim, form, answer_credit))
+        if minimal:
+            self.rule += ('; MINIMAL CONFIGURATION: every option whose value equals the documented default (ordered=False, '
+                          'partial_credit=True, length_error=False, missing_error=True, delimiter=",") is left out of the '
+                          'constructor call, so the defaults themselves are under test; submissions of 1..%d [quick %d] symbols'
+                          % (maxsub[1], maxsub[0]))
 
     def setup(self, tier):
         self.pool = expected_pool(2 if tier == 'quick' else 3)
@@ -141,6 +154,10 @@ class Flat(Family):
             sub = TableGrader(table=TABLE)
             kw = dict(subgrader=sub, ordered=ordered, partial_credit=pc, length_error=le, missing_error=me,
                       delimiter=self.delim)
+            if self.minimal:
+                for opt, default in DOCUMENTED_DEFAULTS.items():
+                    if kw[opt] == default and type(kw[opt]) is type(default):
+                        del kw[opt]
             if self.form == 'list':
                 kw['answers'] = {'expect': list(items), 'grade_decimal': self.c, 'msg': 'AM'}
             elif self.form == 'string':
@@ -153,6 +170,8 @@ class Flat(Family):
             return
         pool = expected_pool(2 if tier == 'quick' else 3)
         maxsub = 4 if tier == 'quick' else 5
+        if self.maxsub:
+            maxsub = self.maxsub[0 if tier == 'quick' else 1]
         for ei, items in enumerate(pool):
             plain = all(isinstance(x, str) for x in items)
             if self.form != 'list' and not plain:
@@ -204,12 +223,23 @@ class Flat(Family):
         return Result(outcome or 'error', nontriv, None, calls)
 
 
+FOUR = [(False, False), (False, True), (True, False), (True, True)]      # (ordered, partial_credit)
+TWO = [(False, True), (True, False)]
+
+
 class TwoAnswerLists(Family):
     name = 'alternative_lists'
     timeout = 30.0
-    rule = ('two alternative expected lists (full credit list L1 with message M1, second list L2 worth 0.5 with message M2), '
-            'all pairs of 2-item lists from the pool x every submission of 1..4 symbols x ordered/partial_credit: grade = max '
-            'over the two lists of credit x formula')
+    rule = ('two alternative expected lists L1, L2 (all ordered pairs of distinct 2-item lists over a,b,c) x every submission of '
+            '1..4 [quick 3] symbols x FOUR ways of writing the alternatives (the first with all ordered/partial_credit settings, the '
+            'others with unordered+partial credit and ordered+all-or-nothing): (dicts) L1 full credit with '
+            'message M1, then L2 worth 0.5 with message M2; (dicts_rev) the same two dictionaries with the lower-credit list '
+            'FIRST; (tuple_in_expect) one dictionary whose expect is the tuple (L1, L2), credit 0.5, one message; (strings) L1 as '
+            'a bare delimited string and L2 as a dictionary with a string expect.  Grade = max over the lists of credit x '
+            'formula; a list\'s message may be shown only if that list attains the maximum and has an optimal matching in '
+            'which every item earned credit, and some message must be shown when that holds for every list attaining the '
+            'maximum')
+    FORMS = ('dicts', 'dicts_rev', 'tuple_in_expect', 'strings')
 
     def setup(self, tier):
         self.lists = [list(p) for p in itertools.permutations(['a', 'b', 'c'], 2)]
@@ -226,44 +256,115 @@ class TwoAnswerLists(Family):
                     for sub in itertools.product(range(len(ITEMS) - 1), repeat=L):
                         yield (i, j, sub)
 
+    def describe(self, case):
+        i, j, sub = case
+        lists = [list(p) for p in itertools.permutations(['a', 'b', 'c'], 2)]
+        return {'L1': lists[i], 'L2': lists[j], 'submission': ','.join(ITEMS[k] for k in sub)}
+
+    def build(self, form, L1, L2, ordered, pc):
+        """returns (grader, [(list, credit, message), ...])"""
+        kw = dict(subgrader=TableGrader(table=TABLE), ordered=ordered, partial_credit=pc)
+        if form == 'dicts':
+            answers = ({'expect': list(L1), 'msg': 'M1'}, {'expect': list(L2), 'grade_decimal': 0.5, 'msg': 'M2'})
+            model = [(L1, 1, 'M1'), (L2, 0.5, 'M2')]
+        elif form == 'dicts_rev':
+            answers = ({'expect': list(L2), 'grade_decimal': 0.5, 'msg': 'M2'}, {'expect': list(L1), 'msg': 'M1'})
+            model = [(L1, 1, 'M1'), (L2, 0.5, 'M2')]
+        elif form == 'tuple_in_expect':
+            answers = {'expect': (list(L1), list(L2)), 'grade_decimal': 0.5, 'msg': 'M1'}
+            model = [(L1, 0.5, 'M1'), (L2, 0.5, 'M1')]
+        else:
+            answers = (','.join(L1), {'expect': ','.join(L2), 'grade_decimal': 0.5, 'msg': 'M2'})
+            model = [(L1, 1, ''), (L2, 0.5, 'M2')]
+        return SingleListGrader(answers=answers, **kw), model
+
     def check(self, case):
         i, j, sub = case
         L1, L2 = self.lists[i], self.lists[j]
         submitted = [ITEMS[k] for k in sub]
         text = ','.join(submitted)
         calls = 0
-        for ordered in (False, True):
-            for pc in (False, True):
-                key = (i, j, ordered, pc)
-                if key not in self.graders:
-                    self.graders[key] = SingleListGrader(
-                        answers=({'expect': list(L1), 'msg': 'M1'}, {'expect': list(L2), 'grade_decimal': 0.5, 'msg': 'M2'}),
-                        subgrader=TableGrader(table=TABLE), ordered=ordered, partial_credit=pc)
+        outcome = None
+        for form in self.FORMS:
+            for ordered, pc in (FOUR if form == 'dicts' else TWO):
                 calls += 1
-                got = call(self.graders[key], None, text)
-                b1, _, _ = formula(spec_of(L1), submitted, ordered, pc)
-                b2, _, _ = formula(spec_of(L2), submitted, ordered, pc)
-                exp = max(b1, 0.5 * b2)
-                where = 'lists %r / %r(0.5), submission %r, ordered=%s partial_credit=%s' % (L1, L2, text, ordered, pc)
-                if got[0] != 'ok':
-                    return Result('raised', True, viol('altlists:raised', '%s: %r' % (where, got), exp, got), calls)
-                if abs(got[1]['grade_decimal'] - exp) > EPS:
-                    return Result('wrong', True, viol('altlists:grade', '%s: grade %r, expected %r' % (where, got[1]['grade_decimal'], exp),
-                                                      exp, got[1]), calls)
-        return Result('g=%.3g' % exp, True, None, calls)
+                v, exp = self.one(form, i, j, ordered, pc, submitted, text)
+                if v:
+                    return Result('wrong', True, v, calls)
+                if outcome is None:
+                    outcome = 'g=%.3g' % exp
+        return Result(outcome, True, None, calls)
+
+    def one(self, form, i, j, ordered, pc, submitted, text):
+        L1, L2 = self.lists[i], self.lists[j]
+        key = (form, i, j, ordered, pc)
+        if key not in self.graders:
+            self.graders[key] = self.build(form, L1, L2, ordered, pc)
+        g, model = self.graders[key]
+        got = call(g, None, text)
+        rows = []
+        for lst, credit, m in model:
+            b, must, may = formula(spec_of(lst), submitted, ordered, pc)
+            rows.append((credit * b, must, may, m))
+        exp = max(r[0] for r in rows)
+        attain = [r for r in rows if abs(r[0] - exp) <= EPS]
+        where = 'lists %r / %r written as %s, submission %r, ordered=%s partial_credit=%s' % (L1, L2, form, text, ordered, pc)
+        if got[0] != 'ok':
+            return viol('altlists:raised', '%s: %r' % (where, got), exp, got), exp
+        res = got[1]
+        if abs(res['grade_decimal'] - exp) > EPS:
+            return viol('altlists:grade', '%s: grade %r, expected %r' % (where, res['grade_decimal'], exp), exp, res), exp
+        for m in ('M1', 'M2'):
+            if m in res['msg'] and not any(r[3] == m and r[2] for r in attain):
+                return viol('altlists:answer-message-undeserved',
+                            '%s: message %s shown, but no list carrying it attains the grade with every item earning credit'
+                            % (where, m), '', res), exp
+        if all(r[3] and r[1] for r in attain) and not any(r[3] in res['msg'] for r in attain):
+            return viol('altlists:answer-message-missing', '%s: every list attaining the grade has all items earning credit, '
+                        'but no answer message is shown (%r)' % (where, res['msg']), [r[3] for r in attain], res), exp
+        return None, exp
 
 
 INNER = [list(s) for L in (1, 2, 3) for s in itertools.product(['a', 'b', 'z'], repeat=L)]
 
 
+def outer_formula(T, n_exp, n_sub, ordered, partial_credit):
+    """
+    formula over cells that are (credit, must, may) triples (T[j][k]: submitted j against expected k): returns
+    (bracket, msg_must, msg_may) where "earned credit" of an outer item means that every item inside it earned credit
+    (docs: "The message is only shown if all of the inputs received credit")
+    """
+    N = max(n_exp, n_sub)
+
+    def cell(j, k):
+        return T[j][k] if (j < n_sub and k < n_exp) else (0, False, False)
+    matchings = [tuple(range(N))] if ordered else list(itertools.permutations(range(N)))
+    totals = [sum(cell(j, p[j])[0] for j in range(N)) for p in matchings]
+    best = max(totals)
+    opt = [p for p, t in zip(matchings, totals) if abs(t - best) <= EPS]
+    must = all(all(cell(j, p[j])[1] for j in range(N)) for p in opt)
+    may = any(all(cell(j, p[j])[2] for j in range(N)) for p in opt)
+    bracket = max(0.0, (best - max(0, n_sub - n_exp)) / float(n_exp))
+    if not partial_credit and bracket < 1 - EPS:
+        bracket = 0.0
+    return bracket, must, may
+
+
 class Nested(Family):
     name = 'nested'
     timeout = 30.0
-    rule = ('one level of nesting (outer ";" inner ","), expected [[a,b],[b,a]] and [[a,b],[c]]-like lists, every submission of 2 '
-            '[thorough: 1..3] outer items each an inner list of 1..3 items over {a,b,z} x outer/inner ordered x partial_credit: '
-            'inner grades by the formula, outer grade by the formula over inner grades')
+    rule = ('one level of nesting (outer ";" inner ","), expected [[a,b],[b,a]] and [[a,b],[c]]-like lists and one whose inner '
+            'lists are answer dictionaries with their own credit 0.5, every submission of 2 [thorough: 1..3] outer items each an '
+            'inner list of 1..3 [quick 2] items over {a,b,z} x outer/inner ordered x outer/inner partial_credit (independent), '
+            'outer answer worth 0.5 with a message; the plain expected lists are additionally written as ONE string '
+            '"a,b;b,a" in the answers and inferred from the expect argument (2 flag sets each): inner grades by the formula, '
+            'outer grade by the formula over inner grades; the answer message requires every innermost item to have earned '
+            'credit')
 
-    EXPECTED = [[['a', 'b'], ['b', 'a']], [['a', 'b'], ['a', 'a']], [['a'], ['b']]]
+    EXPECTED = [[['a', 'b'], ['b', 'a']], [['a', 'b'], ['a', 'a']], [['a'], ['b']],
+                [{'expect': ['a', 'b'], 'grade_decimal': 0.5, 'msg': 'IM'}, ['b']]]
+    FORM_FLAGS = {'string': [(False, False, True, True), (True, True, False, False)],
+                  'infer': [(False, True, True, True), (True, False, False, True)]}
 
     def setup(self, tier):
         self.graders = {}
@@ -282,34 +383,119 @@ class Nested(Family):
         e, combo = case
         return {'expected': self.EXPECTED[e], 'submission': ';'.join(','.join(INNER[k]) for k in combo)}
 
+    def grader(self, e, form, flags):
+        key = (e, form, flags)
+        if key not in self.graders:
+            oo, io, opc, ipc = flags
+            expected = self.EXPECTED[e]
+            inner = SingleListGrader(subgrader=TableGrader(table=TABLE), ordered=io, partial_credit=ipc, delimiter=',')
+            kw = dict(subgrader=inner, ordered=oo, partial_credit=opc, delimiter=';')
+            if form == 'list':
+                fresh = [dict(x, expect=list(x['expect'])) if isinstance(x, dict) else list(x) for x in expected]
+                kw['answers'] = {'expect': fresh, 'grade_decimal': 0.5, 'msg': 'AM'}
+            elif form == 'string':
+                kw['answers'] = {'expect': ';'.join(','.join(x) for x in expected), 'grade_decimal': 0.5, 'msg': 'AM'}
+            self.graders[key] = SingleListGrader(**kw)
+        return self.graders[key]
+
     def check(self, case):
         e, combo = case
         expected = self.EXPECTED[e]
+        plain = all(isinstance(x, list) for x in expected)
         submitted = [INNER[k] for k in combo]
         text = ';'.join(','.join(x) for x in submitted)
         calls = 0
-        for oo, io, pc in itertools.product((False, True), repeat=3):
-            key = (e, oo, io, pc)
+        runs = [('list', f) for f in itertools.product((False, True), repeat=4)]
+        if plain:
+            runs += [(form, f) for form in ('string', 'infer') for f in self.FORM_FLAGS[form]]
+        inner_specs = [(x['expect'], x['grade_decimal']) if isinstance(x, dict) else (x, 1) for x in expected]
+        for form, flags in runs:
+            oo, io, opc, ipc = flags
+            g = self.grader(e, form, flags)
+            calls += 1
+            if form == 'infer':
+                got = call(g, ';'.join(','.join(x) for x in expected), text)
+                c, ans_msg = 1, ''
+            else:
+                got = call(g, None, text)
+                c, ans_msg = 0.5, 'AM'
+            T = []
+            for s in submitted:
+                row = []
+                for lst, credit in inner_specs:
+                    b, must, may = formula(spec_of(lst), s, io, ipc)
+                    row.append((credit * b, must, may))
+                T.append(row)
+            bracket, must, may = outer_formula(T, len(expected), len(submitted), oo, opc)
+            where = ('expected %r (given as %s), submission %r, outer ordered=%s inner ordered=%s outer partial_credit=%s '
+                     'inner partial_credit=%s' % (expected, form, text, oo, io, opc, ipc))
+            v = judge(got, c * bracket, must, may, ans_msg, where, 'nested')
+            if v:
+                return Result('wrong', True, v, calls)
+            if form == 'list' and flags == (False, False, True, True):
+                outcome = 'g=%.3g' % (c * bracket)
+        return Result(outcome, True, None, calls)
+
+
+class NestedBlank(Family):
+    name = 'nested_blank_items'
+    timeout = 30.0
+    rule = ('nesting and blank entries: expected [[a,a],[a,a]] (outer ";" inner ","), every submission of 1..3 outer items each '
+            'an inner list of 1..2 items over {a, blank} x outer/inner missing_error in {left at its default, False} x outer '
+            'ordered: a blank outer item raises when the outer missing_error is on; a blank inner item raises when the inner '
+            'missing_error is on and the inner list is compared with an expected inner list at all (ordered lists do not '
+            'compare surplus items; for those nothing is demanded); otherwise the grade follows the formula')
+    INNERS = [['a'], [''], ['a', 'a'], ['a', ''], ['', 'a'], ['', '']]
+    EXP = [['a', 'a'], ['a', 'a']]
+
+    def setup(self, tier):
+        self.graders = {}
+
+    def cases(self, tier):
+        for L in (1, 2, 3):
+            for combo in itertools.product(range(len(self.INNERS)), repeat=L):
+                yield combo
+
+    def describe(self, case):
+        return {'expected': self.EXP, 'submission': ';'.join(','.join(self.INNERS[k]) for k in case)}
+
+    def check(self, case):
+        submitted = [self.INNERS[k] for k in case]
+        text = ';'.join(','.join(x) for x in submitted)
+        calls = 0
+        outcomes = []
+        for ome, ime, oo in itertools.product((True, False), (True, False), (False, True)):
+            key = (ome, ime, oo)
             if key not in self.graders:
-                inner = SingleListGrader(subgrader=TableGrader(table=TABLE), ordered=io, partial_credit=pc, delimiter=',')
-                self.graders[key] = SingleListGrader(answers=[list(map(list, expected))][0], subgrader=inner, ordered=oo,
-                                                     partial_credit=pc, delimiter=';')
+                ikw = {} if ime else {'missing_error': False}           # True is the default: not passed
+                okw = {} if ome else {'missing_error': False}
+                inner = SingleListGrader(subgrader=TableGrader(table=TABLE), **ikw)
+                self.graders[key] = SingleListGrader(answers=[list(x) for x in self.EXP], subgrader=inner, delimiter=';',
+                                                     ordered=oo, **okw)
             calls += 1
             got = call(self.graders[key], None, text)
-
-            def inner_credit(exp_spec, s, io=io, pc=pc):
-                # exp_spec: [(inner_expected_list_as_tuple, 1)]
-                return max(formula(spec_of(list(alt)), s, io, pc)[0] * c for alt, c in exp_spec)
-            specs = [[(tuple(x), 1)] for x in expected]
-            N = max(len(specs), len(submitted))
-            bracket, _, _ = formula(specs, submitted, oo, pc, credit=inner_credit)
-            where = 'expected %r, submission %r, outer ordered=%s inner ordered=%s partial_credit=%s' % (expected, text, oo, io, pc)
-            if got[0] != 'ok':
-                return Result('raised', True, viol('nested:raised', '%s: %r' % (where, got), bracket, got), calls)
-            if abs(got[1]['grade_decimal'] - bracket) > EPS:
-                return Result('wrong', True, viol('nested:grade', '%s: grade %r, expected %r' % (where, got[1]['grade_decimal'], bracket),
-                                                  bracket, got[1]), calls)
-        return Result('g=%.3g' % bracket, True, None, calls)
+            where = 'expected %r, submission %r, outer missing_error=%s inner missing_error=%s outer ordered=%s' % (
+                self.EXP, text, ome, ime, oo)
+            outer_blank = any(x == [''] for x in submitted)
+            compared = submitted[:len(self.EXP)] if oo else submitted
+            inner_blank_seen = any('' in x for x in compared)
+            inner_blank_any = any('' in x for x in submitted)
+            if (ome and outer_blank) or (ime and inner_blank_seen):
+                if got[0] != 'missing':
+                    return Result('noerror', True, viol('nestedblank:error-expected', '%s: expected a MissingInput error, got %r'
+                                                        % (where, got), 'MissingInput', got), calls)
+                outcomes.append('E')
+                continue
+            if ime and inner_blank_any:
+                outcomes.append('open')         # blank only inside a surplus item of an ordered list: not constrained
+                continue
+            T = [[formula(spec_of(lst), s, False, True) for lst in self.EXP] for s in submitted]
+            bracket, _, _ = outer_formula(T, len(self.EXP), len(submitted), oo, True)
+            if got[0] != 'ok' or abs(got[1]['grade_decimal'] - bracket) > EPS:
+                return Result('wrong', True, viol('nestedblank:grade', '%s: got %r, expected grade %r' % (where, got, bracket),
+                                                  bracket, got), calls)
+            outcomes.append('%.3g' % bracket)
+        return Result('/'.join(outcomes[:3]), True, None, calls)
 
 
 class StringSub(Family):
@@ -359,19 +545,22 @@ class CreditTables(Family):
     EXPECTED = ['p', 'q', 'r', 's', 'u']
     SUBMITTED = ['t0', 't1', 't2', 't3', 't4']
 
-    def __init__(self, n_exp, n_sub, alphabet, tiers=('quick', 'thorough')):
+    def __init__(self, n_exp, n_sub, alphabet, tiers=('quick', 'thorough'), answer_credit=0.5):
         self.n_exp, self.n_sub, self.alphabet, self.tiers = n_exp, n_sub, tuple(alphabet), tiers
+        self.c = answer_credit
         self.name = 'credit_tables_%dx%d_%s' % (n_exp, n_sub, 'bin' if len(alphabet) == 2 else 'x'.join('%g' % a for a in alphabet))
+        if answer_credit != 0.5:
+            self.name += '_answer_credit_%g' % answer_credit
         self.rule = ('unordered list of %d expected items, %d distinct submitted items, EVERY table of item credits over %r '
-                     '(%d tables) x partial_credit on/off, answer credit 0.5 with message; oracle = closed-form formula with a '
+                     '(%d tables) x partial_credit on/off, answer credit %r with message; oracle = closed-form formula with a '
                      'brute-force optimal assignment (the table is handed to the author-level table subgrader)'
-                     % (n_exp, n_sub, list(alphabet), len(alphabet) ** (n_exp * n_sub)))
+                     % (n_exp, n_sub, list(alphabet), len(alphabet) ** (n_exp * n_sub), answer_credit))
 
     def setup(self, tier):
         self.g = {}
         for pc in (True, False):
             sub = TableGrader(table={})
-            g = SingleListGrader(answers={'expect': self.EXPECTED[:self.n_exp], 'grade_decimal': 0.5, 'msg': 'AM'},
+            g = SingleListGrader(answers={'expect': self.EXPECTED[:self.n_exp], 'grade_decimal': self.c, 'msg': 'AM'},
                                  subgrader=sub, ordered=False, partial_credit=pc, delimiter=',')
             self.g[pc] = (g, g.config['subgrader'].config['table'])
 
@@ -407,12 +596,361 @@ class CreditTables(Family):
             bracket, must, may = formula(specs, submitted, False, pc, credit=lambda spec, s2: T.get((spec[0][0], s2), 0))
             where = 'expected %r, submission %r, item credits %r, unordered, partial_credit=%s' % (
                 self.EXPECTED[:self.n_exp], text, {'%s,%s' % k: v for k, v in T.items()}, pc)
-            v = judge(got, 0.5 * bracket, must, may, 'AM', where, 'tables')
+            v = judge(got, self.c * bracket, must, may, 'AM', where, 'tables')
             if v:
                 return Result('wrong', True, v, 2)
             if pc:
-                outcome = 'g=%.4g' % (0.5 * bracket)
+                outcome = 'g=%.4g%s' % (self.c * bracket, '+msg' if must else '')
         return Result(outcome, bool(T), None, 2)
+
+
+def formula_dp(expected_specs, submitted, ordered, partial_credit, credit=item_credit):
+    """the same closed-form formula as `formula`, with the optimal assignment found by refs/c07_ref.assignment_dp"""
+    n_exp, n_sub = len(expected_specs), len(submitted)
+    N = max(n_exp, n_sub)
+    M = [[credit(expected_specs[k], submitted[j]) if (j < n_sub and k < n_exp) else 0
+          for k in range(N)] for j in range(N)]
+    if ordered:
+        diag = [M[j][j] for j in range(N)]
+        best, must = sum(diag), all(d > 0 for d in diag)
+        may = must
+    else:
+        best, must, may = c07_ref.assignment_dp(M, EPS)
+    surplus = max(0, n_sub - n_exp)
+    bracket = max(0.0, (best - surplus) / float(n_exp))
+    if not partial_credit and bracket < 1 - EPS:
+        bracket = 0.0
+    return bracket, must, may
+
+
+class Long(Family):
+    """the sizes of the stated scope that `Flat` does not reach: 4 and 5 expected items, up to 7 submitted items"""
+    name = 'long_lists'
+    timeout = 30.0
+    EXPECTED = [['a', 'b', 'c', 'c'],
+                [('a', 'c'), 'b', 'b', {'expect': 'a', 'grade_decimal': 0.5}],
+                ['a', 'b', 'c', 'a', 'b']]
+    FLAGS = [(False, True, False, False), (False, False, False, False), (True, True, False, False), (True, False, False, False),
+             (False, True, True, True), (True, False, True, True)]
+    rule = ('expected lists of 4 and 5 items WITH REPEATED ITEMS, item alternatives and item partial credit (%r; quick: the last two) x every '
+            'submission of 1..7 items (quick: over {a,b,z,blank} up to 4 items and {a,b,z} for 5..7 items; thorough: over '
+            '{a,b,c,z,blank} up to 5 items and {a,b,c,z} for 6 and 7 items) x ordered x partial_credit with both error options '
+            'off, plus two flag sets with both error options on; answer credit 0.5 with message; oracle = closed-form formula '
+            'with the subset dynamic programme of refs/c07_ref.py (cross-checked against enumeration of permutations in setup)'
+            % (EXPECTED,))
+
+    def setup(self, tier):
+        c07_ref.selftest()
+        self.graders = {}
+
+    def cases(self, tier):
+        if tier == 'quick':
+            alph = lambda L: (0, 1, 3, 4) if L <= 4 else (0, 1, 3)
+        else:
+            alph = lambda L: (0, 1, 2, 3, 4) if L <= 5 else (0, 1, 2, 3)
+        for ei in range(len(self.EXPECTED)):
+            if tier == 'quick' and ei == 0:
+                continue
+            for L in range(1, 8):
+                for sub in itertools.product(alph(L), repeat=L):
+                    yield (ei, sub)
+
+    def describe(self, case):
+        ei, sub = case
+        return {'expected': repr(self.EXPECTED[ei]), 'submission': ','.join(ITEMS[i] for i in sub)}
+
+    def check(self, case):
+        ei, sub = case
+        items = self.EXPECTED[ei]
+        specs = spec_of(items)
+        submitted = [ITEMS[i] for i in sub]
+        text = ','.join(submitted)
+        calls = 0
+        outcome = None
+        for flags in self.FLAGS:
+            ordered, pc, le, me = flags
+            key = (ei, flags)
+            if key not in self.graders:
+                self.graders[key] = SingleListGrader(
+                    answers={'expect': list(items), 'grade_decimal': 0.5, 'msg': 'AM'}, subgrader=TableGrader(table=TABLE),
+                    ordered=ordered, partial_credit=pc, length_error=le, missing_error=me)
+            calls += 1
+            got = call(self.graders[key], None, text)
+            where = 'expected %r, submission %r, ordered=%s partial_credit=%s length_error=%s missing_error=%s' % (
+                items, text, ordered, pc, le, me)
+            if (le and len(submitted) != len(items)) or (me and '' in submitted):
+                if got[0] != 'missing':
+                    return Result('noerror', True, viol('long:error-expected-but-graded', '%s: expected a MissingInput error, got %r'
+                                                        % (where, got), 'MissingInput', got), calls)
+                continue
+            bracket, must, may = formula_dp(specs, submitted, ordered, pc)
+            v = judge(got, 0.5 * bracket, must, may, 'AM', where, 'long')
+            if v:
+                return Result('wrong', True, v, calls)
+            if flags == self.FLAGS[0]:
+                outcome = 'g=%.3g%s' % (0.5 * bracket, '+msg' if must else '')
+        return Result(outcome, True, None, calls)
+
+
+class ReInfer(Family):
+    """answers inferred from the expect argument are inferred again on every call"""
+    name = 'inferred_expect_histories'
+    timeout = 30.0
+    FIRST = ['a,b', 'c', 'b,c,a']
+    SECOND = [','.join(p) for L in (1, 2) for p in itertools.permutations('abc', L)] + ['a,b,c']
+    HIST = ('graded', 'student_error', 'author_error', 'configured')
+    rule = ('a FRESH grader per case and a two-call history: first call with expect E1 in %r, second call with expect E2 (every '
+            'ordered selection of 1..2 of a,b,c and "a,b,c") and every submission of 1..2 symbols over {a,b,c} plus "a,b,c" and '
+            '"c,a,b"; x ordered; the '
+            'first call is (graded) a graded submission, (student_error) a submission with a blank entry that raises, '
+            '(author_error) an expect value with a blank entry that is refused as a configuration error, or (configured) '
+            'absent but E1 is configured as the grader\'s answers: the second call is graded against E2, except in '
+            '(configured) where configured answers take precedence over the expect argument' % (FIRST,))
+
+    def cases(self, tier):
+        for h in range(len(self.HIST)):
+            for e1 in range(len(self.FIRST)):
+                for e2 in range(len(self.SECOND)):
+                    for L in (1, 2):
+                        for sub in itertools.product((0, 1, 2), repeat=L):
+                            yield (h, e1, e2, sub)
+                    yield (h, e1, e2, (0, 1, 2))
+                    yield (h, e1, e2, (2, 0, 1))
+
+    def describe(self, case):
+        h, e1, e2, sub = case
+        return {'history': self.HIST[h], 'E1': self.FIRST[e1], 'E2': self.SECOND[e2], 'submission': ','.join(ITEMS[i] for i in sub)}
+
+    def check(self, case):
+        h, e1, e2, sub = case
+        hist, E1, E2 = self.HIST[h], self.FIRST[e1], self.SECOND[e2]
+        submitted = [ITEMS[i] for i in sub]
+        text = ','.join(submitted)
+        calls = 0
+        for ordered in (False, True):
+            kw = dict(subgrader=TableGrader(table=TABLE), ordered=ordered)
+            if hist == 'configured':
+                g = SingleListGrader(answers=E1.split(','), **kw)
+                target = E1
+            else:
+                g = SingleListGrader(**kw)
+                target = E2
+                calls += 1
+                if hist == 'graded':
+                    first = call(g, E1, 'a,z')
+                    bad = first[0] != 'ok'
+                elif hist == 'student_error':
+                    first = call(g, E1, 'a,,b')
+                    bad = first[0] != 'missing'
+                else:
+                    first = call(g, 'a,,b', 'a')
+                    bad = not (first[0] == 'other' and first[1].startswith('ConfigError'))
+                if bad:
+                    return Result('first', True, viol('reinfer:first-call', 'first call (%s) with expect %r gave %r'
+                                                      % (hist, E1, first), hist, first), calls)
+            calls += 1
+            got = call(g, E2, text)
+            bracket, must, may = formula(spec_of(target.split(',')), submitted, ordered, True)
+            where = 'history %s, first expect %r, then expect %r and submission %r, ordered=%s' % (hist, E1, E2, text, ordered)
+            v = judge(got, bracket, must, may, '', where, 'reinfer')
+            if v:
+                return Result('wrong', True, v, calls)
+        return Result('g=%.3g' % bracket, target != E1 or hist == 'configured', None, calls)
+
+
+class Delims(Family):
+    name = 'delimiter_alphabet'
+    timeout = 30.0
+    DELIMS = ['|', '.', '+', '*', '?', '$', '^', '\\', '(', '[', ' ', '\t', '\n', '||', '.*', 'xy', ' | ', ';']
+    EXPECTED = [['a', 'b'], ['b', 'c', 'a']]
+    rule = ('delimiters that mean something to regular expressions, whitespace delimiters and multi-character ones (%r) x '
+            'expected lists %r given as a list and as one delimited string x every submission of 1..3 symbols over '
+            '{a,b,z,blank} x 4 flag sets (unordered+partial credit, ordered+all-or-nothing, each with both error options off '
+            'and on); same formula and error rules as the flat families' % (DELIMS, EXPECTED))
+    FLAGS = [(False, True, False, False), (True, False, False, False), (False, True, True, True), (True, False, True, True)]
+
+    def setup(self, tier):
+        self.graders = {}
+
+    def cases(self, tier):
+        for d in range(len(self.DELIMS)):
+            for ei in range(len(self.EXPECTED)):
+                for L in (1, 2, 3):
+                    for sub in itertools.product((0, 1, 3, 4), repeat=L):
+                        yield (d, ei, sub)
+
+    def describe(self, case):
+        d, ei, sub = case
+        return {'delimiter': self.DELIMS[d], 'expected': self.EXPECTED[ei], 'submission': self.DELIMS[d].join(ITEMS[i] for i in sub)}
+
+    def check(self, case):
+        d, ei, sub = case
+        delim, items = self.DELIMS[d], self.EXPECTED[ei]
+        submitted = [ITEMS[i] for i in sub]
+        text = delim.join(submitted)
+        calls = 0
+        outcome = None
+        for form in ('list', 'string'):
+            for flags in self.FLAGS:
+                ordered, pc, le, me = flags
+                key = (d, ei, form, flags)
+                if key not in self.graders:
+                    self.graders[key] = SingleListGrader(
+                        answers={'expect': list(items) if form == 'list' else delim.join(items), 'grade_decimal': 0.5, 'msg': 'AM'},
+                        subgrader=TableGrader(table=TABLE), ordered=ordered, partial_credit=pc, length_error=le,
+                        missing_error=me, delimiter=delim)
+                calls += 1
+                got = call(self.graders[key], None, text)
+                where = 'delimiter %r, expected %r (as %s), submission %r, ordered=%s partial_credit=%s length_error=%s ' \
+                        'missing_error=%s' % (delim, items, form, text, ordered, pc, le, me)
+                if (le and len(submitted) != len(items)) or (me and '' in submitted):
+                    if got[0] != 'missing':
+                        return Result('noerror', True, viol('delims:error-expected-but-graded', '%s: expected a MissingInput error, '
+                                                            'got %r' % (where, got), 'MissingInput', got), calls)
+                    continue
+                bracket, must, may = formula(spec_of(items), submitted, ordered, pc)
+                v = judge(got, 0.5 * bracket, must, may, 'AM', where, 'delims')
+                if v:
+                    return Result('wrong', True, v, calls)
+                if not (le or me):
+                    outcome = 'g=%.3g' % (0.5 * bracket)
+        return Result(outcome or 'error', True, None, calls)
+
+
+class SharedObjects(Family):
+    name = 'shared_author_objects'
+    timeout = 30.0
+    rule = ('ONE answers object and ONE subgrader object handed to several graders: g1 (unordered, partial credit) and g2 '
+            '(ordered, no partial credit, other error options) are built from the same Python list of answers and the same '
+            'subgrader; g3 is built from g1\'s own validated configuration (SingleListGrader(g1.config)); g4 nests the same '
+            'inner SingleListGrader that g5 also uses with another outer delimiter.  Expected lists from the flat pool x every '
+            'submission of 1..3 symbols over {a,b,c,z}: each grader follows the formula for ITS options, in the call order '
+            'g1,g2,g3,g1 and g4,g5,g4')
+
+    def setup(self, tier):
+        self.pool = expected_pool(2)
+        self.built = {}
+
+    def cases(self, tier):
+        for ei in range(len(expected_pool(2))):
+            for L in (1, 2, 3):
+                for sub in itertools.product((0, 1, 2, 3), repeat=L):
+                    yield (ei, sub)
+
+    def describe(self, case):
+        ei, sub = case
+        return {'expected': repr(expected_pool(2)[ei]), 'submission': ','.join(ITEMS[i] for i in sub)}
+
+    def graders(self, ei):
+        if ei not in self.built:
+            items = self.pool[ei]
+            shared_answers = list(items)
+            shared_sub = TableGrader(table=TABLE)
+            g1 = SingleListGrader(answers=shared_answers, subgrader=shared_sub, ordered=False, partial_credit=True,
+                                  missing_error=False)
+            g2 = SingleListGrader(answers=shared_answers, subgrader=shared_sub, ordered=True, partial_credit=False,
+                                  missing_error=False)
+            g3 = SingleListGrader(g1.config)
+            inner = SingleListGrader(subgrader=shared_sub, ordered=True, missing_error=False)
+            nested_answers = [list(items), list(items)]
+            g4 = SingleListGrader(answers=nested_answers, subgrader=inner, delimiter=';', missing_error=False)
+            g5 = SingleListGrader(answers=nested_answers, subgrader=inner, delimiter='/', ordered=True, missing_error=False)
+            self.built[ei] = (g1, g2, g3, g4, g5)
+        return self.built[ei]
+
+    def check(self, case):
+        ei, sub = case
+        items = self.pool[ei]
+        specs = spec_of(items)
+        submitted = [ITEMS[i] for i in sub]
+        text = ','.join(submitted)
+        g1, g2, g3, g4, g5 = self.graders(ei)
+        calls = 0
+        for name, g, ordered, pc in (('g1', g1, False, True), ('g2', g2, True, False), ('g3 (rebuilt from g1.config)', g3, False, True),
+                                     ('g1 again', g1, False, True)):
+            calls += 1
+            got = call(g, None, text)
+            bracket, must, may = formula(specs, submitted, ordered, pc)
+            where = '%s: expected %r shared between graders, submission %r, ordered=%s partial_credit=%s' % (
+                name, items, text, ordered, pc)
+            v = judge(got, bracket, must, may, '', where, 'shared')
+            if v:
+                return Result('wrong', True, v, calls)
+        # nested: outer submission = the inner submission twice in different orders
+        inner_b = formula(specs, submitted, True, True)
+        rev = list(reversed(submitted))
+        inner_r = formula(specs, rev, True, True)
+        for name, g, delim, oo in (('g4', g4, ';', False), ('g5', g5, '/', True), ('g4 again', g4, ';', False)):
+            calls += 1
+            outer_text = delim.join([text, ','.join(rev)])
+            got = call(g, None, outer_text)
+            T = [[inner_b, inner_b], [inner_r, inner_r]]
+            ob, _, _ = outer_formula(T, 2, 2, oo, True)
+            where = '%s: nested expected [%r, %r] sharing the inner grader, submission %r, outer ordered=%s' % (
+                name, items, items, outer_text, oo)
+            if got[0] != 'ok' or abs(got[1]['grade_decimal'] - ob) > EPS:
+                return Result('wrong', True, viol('shared:nested-grade', '%s: got %r, expected grade %r' % (where, got, ob), ob, got), calls)
+        return Result('g=%.3g/%.3g' % (bracket, ob), True, None, calls)
+
+
+class MathSub(Family):
+    name = 'math_subgraders'
+    timeout = 30.0
+    NUM = ['1', '2.5', '1.0', '5/2', '7', ' 1 ', '']
+    FORM = ['x+1', '2*x', '1+x', 'x*2', 'x', ' x + 1', '']
+    rule = ('the built-in math graders as subgrader (their answers are coerced into comparer dictionaries during validation): '
+            'NumericalGrader with expected ["1","2.5"] (list) / "1,2.5" (string) over submissions of 1..4 [quick: 3 for the list form, 2 otherwise] items from '
+            '%r, and FormulaGrader(variables=[x]) with expected ["x+1","2*x"] over %r, x 16 flag sets; items match when they '
+            'are mathematically equal; a blank item earns nothing when missing_error is off' % (NUM, FORM))
+    VALUE = {'1': 1, '2.5': 2.5, '1.0': 1, '5/2': 2.5, '7': 7, ' 1 ': 1, '': None,
+             'x+1': 'p', '2*x': 'd', '1+x': 'p', 'x*2': 'd', 'x': 'x', ' x + 1': 'p'}
+
+    def setup(self, tier):
+        self.graders = {}
+
+    def cases(self, tier):
+        for kind in (0, 1, 2):
+            for L in range(1, (4 if kind == 0 else 3) if tier == 'quick' else 5):
+                for sub in itertools.product(range(7), repeat=L):
+                    yield (kind, sub)
+
+    def describe(self, case):
+        kind, sub = case
+        words = self.FORM if kind == 2 else self.NUM
+        return {'subgrader': ('NumericalGrader, list answers', 'NumericalGrader, string answers', 'FormulaGrader')[kind],
+                'submission': ','.join(words[i] for i in sub)}
+
+    def check(self, case):
+        kind, sub = case
+        words = self.FORM if kind == 2 else self.NUM
+        expected = ['x+1', '2*x'] if kind == 2 else ['1', '2.5']
+        submitted = [words[i] for i in sub]
+        text = ','.join(submitted)
+        calls = 0
+        outcome = None
+        for flags in FLAGSETS:
+            ordered, pc, le, me = flags
+            key = (kind, flags)
+            if key not in self.graders:
+                subgrader = FormulaGrader(variables=['x']) if kind == 2 else NumericalGrader()
+                self.graders[key] = SingleListGrader(answers=list(expected) if kind != 1 else ','.join(expected),
+                                                     subgrader=subgrader, ordered=ordered, partial_credit=pc,
+                                                     length_error=le, missing_error=me)
+            calls += 1
+            got = call(self.graders[key], None, text)
+            where = 'expected %r, submission %r, ordered=%s partial_credit=%s length_error=%s missing_error=%s' % (
+                expected, text, ordered, pc, le, me)
+            if (le and len(submitted) != 2) or (me and any(s.strip() == '' for s in submitted)):
+                if got[0] != 'missing':
+                    return Result('noerror', True, viol('mathsub:error-expected', '%s: got %r' % (where, got), 'MissingInput', got), calls)
+                continue
+            cr = lambda spec, s: 1 if (self.VALUE[s] is not None and self.VALUE[s] == self.VALUE[spec[0][0]]) else 0
+            bracket, _, _ = formula([[(e, 1)] for e in expected], submitted, ordered, pc, credit=cr)
+            if got[0] != 'ok' or abs(got[1]['grade_decimal'] - bracket) > EPS:
+                return Result('wrong', True, viol('mathsub:grade', '%s: got %r expected grade %r' % (where, got, bracket), bracket, got), calls)
+            if not (le or me):
+                outcome = 'g=%.3g' % bracket
+        return Result(outcome or 'error', True, None, calls)
 
 
 def families(tier):
@@ -424,12 +962,25 @@ def families(tier):
         Flat('flat_delim_space_semicolon_space', ' ; ', 'string', 1, tiers=('thorough',)),
         Flat('flat_string_answers', ',', 'string', 0.5),
         Flat('flat_inferred_expect', ',', 'infer', 1),
+        Flat('flat_minimal_config_defaults', ',', 'list', 0.5, minimal=True, maxsub=(3, 4)),
+        Flat('flat_minimal_config_defaults_string', ',', 'string', 1, minimal=True, maxsub=(2, 3), tiers=('thorough',)),
+        Long(),
+        ReInfer(),
+        Delims(),
+        SharedObjects(),
+        MathSub(),
         TwoAnswerLists(),
         Nested(),
+        NestedBlank(),
         StringSub(),
         CreditTables(4, 4, (0, 1)),
         CreditTables(3, 3, (0, 0.25, 0.5, 1)),
         CreditTables(2, 2, (0, 0.33, 1.0 / 3, 0.5, 0.504, 1)),          # credits closer together than half a percent
+        CreditTables(2, 2, (0, 1e-7, 0.5, 1 - 1e-7, 1)),                # credits within 1e-7 of "nothing" and of "full"
+        CreditTables(2, 2, (0, 0.5, 1), answer_credit=0),               # an answer worth nothing (falsy credit)
+        CreditTables(2, 3, (0, 0.5, 1), answer_credit=0),
+        CreditTables(3, 2, (0, 0.5, 1), answer_credit=1),
+        CreditTables(2, 2, (0, 0.5, 1), answer_credit=1e-7),
         CreditTables(3, 2, (0, 0.33, 1.0 / 3, 0.996, 1), tiers=('thorough',)),
         CreditTables(3, 4, (0, 0.5, 1), tiers=('thorough',)),
         CreditTables(4, 3, (0, 0.5, 1), tiers=('thorough',)),
